@@ -254,6 +254,8 @@ class Block:
         Js = self.partial_jacobians(ss, inputs | unknowns, (actual_outputs | targets) - unknowns, T, Js, options, **kwargs)
         
         H_Z = self.jacobian(ss, inputs, targets, T, Js, options, **kwargs)
+        # targets that none of the inputs affects are absent from H_Z: list every target (absent entries are zero blocks)
+        H_Z = JacobianDict({t: H_Z.nesteddict.get(t, {}) for t in targets}, self.make_ordered_set(targets), inputs, T=T)
 
         if H_U_factored is None:
             H_U = self.jacobian(ss, unknowns, targets, T, Js, options, **kwargs).pack(T)
